@@ -9,7 +9,7 @@ pub mod index { pub use ide::index::*; }
 '''
 U.extra_files = [('handlers/diagnostics.rs', 'diagnostics')]
 U.prelude_files = ['/verif/contracts/dg/prelude.rs', '/verif/contracts/dg/harvested.rs', '/verif/contracts/dg/spec.rs']
-U.extra_uses = 'use vstd::prelude::*;\n#[allow(unused_imports)] use crate::vprelude::*;\n#[allow(unused_imports)] use crate::vspecs::*;\n#[allow(unused_imports)] use crate::dgspec::*;\n'
+U.extra_uses = 'use vstd::prelude::*;\n#[allow(unused_imports)] use crate::vprelude::*;\n#[allow(unused_imports)] use crate::vspecs::*;\n#[allow(unused_imports)] use crate::dgspec::*;\n#[allow(unused_imports)] use vstd::std_specs::iter::IteratorSpec;\n'
 U.externs = ['ide', 'syntax', 'ecow', 'rowan', 'salsa']
 U.repo_build = ['-p', 'ide']
 U.flags = ['--no-trait-conflicts']
@@ -18,4 +18,81 @@ U.kind_tags = {}
 F = 'handlers/diagnostics.rs'
 U.drop_item(F, 'struct', r'Diagnostic', 'R9', 'data type comes from the linked ide crate')
 U.drop_item(F, 'impl', r'Diagnostic', 'R9', 'comes from the linked ide crate')
-U.fn(F, 'exec', attrs=['exec_allows_no_decreases_clause'])
+U.prepend(F, 'broadcast use {ax_fileid_key_model, axiom_random_state_builds_valid_hashers};')
+DL = 'Vec<Diagnostic>'
+U.fn(F, 'exec', attrs=['exec_allows_no_decreases_clause'],
+     ensures=[C('grouped_by_file(ret@)', 'C13 C09', name='every diagnostic is filed under the file it lies in (what the server relies on when it converts them)'),
+              C('forall|j: int, i: int| 0 <= j < ws_files(db).len() && 0 <= i < syntax_errors(db, ws_files(db)[j]).len() ==> reports(ret@, ws_files(db)[j], #[trigger] syntax_errors(db, ws_files(db)[j])[i])', 'C13',
+                name='every syntax error of every file of the workspace (root or included) is reported in that file, at its range'),
+              C('forall|k: int| 0 <= k < index_diags(db).len() ==> filed(ret@, #[trigger] index_diags(db)[k])', 'C13', name='every diagnostic of the indexer is reported in its own file'),
+              C('forall|j: int| 0 <= j < ws_files(db).len() ==> ret@.contains_key(#[trigger] ws_files(db)[j])', 'C13 C11', name='every file of the workspace has an entry (possibly empty: stale diagnostics get cleared)')],
+     lift=[dict(closure=0, name='syntax_diagnostic', sig='(file_id: FileId, @CAPTURES@err: &SyntaxError) -> (ret: Diagnostic)', replace='|err| syntax_diagnostic(file_id, @CAPTURES@err)',
+                captures=[('source_root', '&SourceRoot', '&source_root')],
+                ensures=[C('ret.location.range == err.range'), C('ret.location.file == file_id', name='a syntax error is reported in the file whose parse produced it')])],
+     outline=[dict(move=True, rx=r'diagnostic_list\.extend\(parse\.errors\(\)\.iter\(\)\.map\(.*?\}\)\)', name='o_extend_syntax',
+                   sig='(diagnostic_list: &mut %s, parse: &syntax::Parse, file_id: FileId, source_root: &SourceRoot)' % DL, call='o_extend_syntax(&mut diagnostic_list, &parse, file_id, &source_root)',
+                   ensures=['final(diagnostic_list)@.len() == old(diagnostic_list)@.len() + parse_errors(parse).len()',
+                            'forall|k: int| 0 <= k < old(diagnostic_list)@.len() ==> final(diagnostic_list)@[k] == old(diagnostic_list)@[k]',
+                            'forall|i: int| 0 <= i < parse_errors(parse).len() ==> (#[trigger] final(diagnostic_list)@[old(diagnostic_list)@.len() + i]).location.file == file_id && final(diagnostic_list)@[old(diagnostic_list)@.len() + i].location.range == parse_errors(parse)[i]'],
+                   why='Vec::extend over slice.iter().map(closure); ASSUMED: appends closure(e) for every error e, in order - the closure itself is moved out and verified (R15)'),
+              dict(move=True, optional=True, rx=r'diagnostic_list\.extend\(index\.diagnostics\(\)\.iter\(\)\.cloned\(\)\)', name='o_extend_index',
+                   sig='(diagnostic_list: &mut %s, index: &Arc<Index>)' % DL, call='o_extend_index(&mut diagnostic_list, &index)',
+                   ensures=['final(diagnostic_list)@ == old(diagnostic_list)@ + idx_diags(&**index)'], why='Vec::extend over slice.iter().cloned()'),
+              dict(move=True, rx=r'let diagnostics = diagnostic_map\.entry\(file_id\)\.or_insert_with\(Vec::new\);\s*diagnostics\.push\(diagnostic\);', name='o_file_under',
+                   sig='(diagnostic_map: &mut HashMap<FileId, %s>, file_id: FileId, diagnostic: Diagnostic)' % DL, call='o_file_under(&mut diagnostic_map, file_id, diagnostic);',
+                   ensures=['final(diagnostic_map)@.contains_key(file_id)',
+                            'final(diagnostic_map)@[file_id]@ == (if old(diagnostic_map)@.contains_key(file_id) { old(diagnostic_map)@[file_id]@ } else { Seq::<Diagnostic>::empty() }).push(diagnostic)',
+                            'forall|k: FileId| k != file_id ==> final(diagnostic_map)@.contains_key(k) == old(diagnostic_map)@.contains_key(k)',
+                            'forall|k: FileId| k != file_id && old(diagnostic_map)@.contains_key(k) ==> #[trigger] final(diagnostic_map)@[k] == old(diagnostic_map)@[k]'],
+                   why='HashMap entry API returning &mut Vec; ASSUMED: pushes the diagnostic onto the vector stored under the key (created empty if absent)'),
+              dict(rx=r'source_root\.iter_files\(\)', name='o_files', sig='(source_root: &Arc<SourceRoot>) -> (r: std::vec::IntoIter<FileId>)', call='o_files(&source_root)',
+                   wrap=('', '.collect::<Vec<_>>().into_iter()'), ensures=['r.remaining() =~= sr_files(&**source_root)', 'r.obeys_prophetic_iter_laws()', 'r.decrease() is Some'],
+                   why='SourceRoot::iter_files returns an opaque `impl Iterator`; collected into a Vec to walk it with a specified iterator'),
+              dict(rx=r'db\.source_root\(\)\.iter_files\(\)', name='o_files_of_db', sig='(db: &dyn IndexDatabase) -> (r: std::vec::IntoIter<FileId>)', call='o_files_of_db(db)',
+                   wrap=('', '.collect::<Vec<_>>().into_iter()'), ensures=['r.remaining() =~= ws_files(db)', 'r.obeys_prophetic_iter_laws()', 'r.decrease() is Some'],
+                   why='as above')],
+     loops={
+       0: dict(after_iter_init='let ghost files = __it0.remaining(); let ghost mut n: int = 0;',
+               invariant=['0 <= n <= files.len()', '__it0.remaining() =~= files.skip(n)', '__it0.obeys_prophetic_iter_laws()', '__it0.decrease() is Some', 'files =~= ws_files(db)',
+                          C('forall|j: int, i: int| 0 <= j < n && 0 <= i < syntax_errors(db, files[j]).len() ==> lists(diagnostic_list@, files[j], #[trigger] syntax_errors(db, files[j])[i])', 'C13',
+                            name='the syntax errors of every file visited so far are in the list, each under its own file')],
+               ensures=['forall|j: int, i: int| 0 <= j < ws_files(db).len() && 0 <= i < syntax_errors(db, ws_files(db)[j]).len() ==> lists(diagnostic_list@, ws_files(db)[j], #[trigger] syntax_errors(db, ws_files(db)[j])[i])'],
+               body_prologue='let ghost l0 = diagnostic_list@; proof { assert(files.skip(n)[0] == files[n]); n = n + 1; }',
+               body_epilogue='; proof { let l1 = diagnostic_list@; assert forall|j: int, i: int| 0 <= j < n && 0 <= i < syntax_errors(db, files[j]).len() implies lists(l1, files[j], #[trigger] syntax_errors(db, files[j])[i]) by { '
+                             'let r = syntax_errors(db, files[j])[i]; '
+                             'if j < n - 1 { let k = choose|k: int| 0 <= k < l0.len() && (#[trigger] l0[k]).location.file == files[j] && l0[k].location.range == r; assert(l1[k] == l0[k]); } '
+                             'else { let k = l0.len() + i; assert(l1[k].location.file == files[j] && l1[k].location.range == r); } } }',
+               decreases='__it0.decrease().unwrap()'),
+       1: dict(after_iter_init='let ghost files1 = __it1.remaining(); let ghost mut n1: int = 0;',
+               invariant=['0 <= n1 <= files1.len()', '__it1.remaining() =~= files1.skip(n1)', '__it1.obeys_prophetic_iter_laws()', '__it1.decrease() is Some', 'files1 =~= ws_files(db)',
+                          'has_keys(diagnostic_map@, files1, n1)', 'all_empty(diagnostic_map@)'],
+               ensures=['has_keys(diagnostic_map@, ws_files(db), ws_files(db).len() as int)'],
+               body_prologue='proof { assert(files1.skip(n1)[0] == files1[n1]); n1 = n1 + 1; }',
+               decreases='__it1.decrease().unwrap()'),
+       2: dict(after_iter_init='let ghost all = __it2.remaining(); let ghost mut n2: int = 0;',
+               invariant=['0 <= n2 <= all.len()', '__it2.remaining() =~= all.skip(n2)', '__it2.obeys_prophetic_iter_laws()', '__it2.decrease() is Some', 'all =~= l2',
+                          C('grouped_by_file(diagnostic_map@)', 'C13 C09', name='every diagnostic filed so far sits under the file it lies in'),
+                          'has_keys(diagnostic_map@, ws_files(db), ws_files(db).len() as int)',
+                          C('forall|k: int| 0 <= k < n2 ==> filed(diagnostic_map@, #[trigger] all[k])', 'C13', name='every diagnostic taken from the list so far is in the map, under its own file')],
+               ensures=['forall|k: int| 0 <= k < l2.len() ==> filed(diagnostic_map@, #[trigger] l2[k])'],
+               body_prologue='let ghost m0 = diagnostic_map@; proof { assert(all.skip(n2)[0] == all[n2]); n2 = n2 + 1; }',
+               body_epilogue=' proof { let m1 = diagnostic_map@; let d = all[n2 - 1]; let f = d.location.file; '
+                             'assert(m1[f]@.len() >= 1 && m1[f]@[m1[f]@.len() - 1] == d); '
+                             'assert forall|k: FileId, i: int| m1.contains_key(k) && 0 <= i < m1[k]@.len() implies (#[trigger] m1[k]@[i]).location.file == k by { '
+                             'if k == f { if i < m1[k]@.len() - 1 { assert(m0.contains_key(k)); assert(m1[k]@[i] == m0[k]@[i]); } } else { assert(m0.contains_key(k)); assert(m1[k] == m0[k]); } } '
+                             'assert forall|k: int| 0 <= k < n2 implies filed(m1, #[trigger] all[k]) by { '
+                             'if k < n2 - 1 { let g = all[k].location.file; let i = choose|i: int| 0 <= i < m0[g]@.len() && #[trigger] m0[g]@[i] == all[k]; '
+                             'if g == f { assert(m1[g]@[i] == m0[g]@[i]); } else { assert(m1[g] == m0[g]); assert(m1[g]@[i] == all[k]); } } '
+                             'else { assert(m1[f]@[m1[f]@.len() - 1] == d); } } }',
+               decreases='__it2.decrease().unwrap()'),
+     },
+     body_proofs=[(r'for diagnostic in diagnostic_list', 'let ghost l2 = diagnostic_list@; '
+                   'proof { assert(all_empty(diagnostic_map@)); assert(grouped_by_file(diagnostic_map@)); }'),
+                  (r'let mut diagnostic_map = HashMap::new\(\);', 'let ghost l1x = diagnostic_list@;'),
+                  (r'diagnostic_map\n\}', 'proof { let m = diagnostic_map@; let fs = ws_files(db); '
+                   'assert forall|j: int, i: int| 0 <= j < fs.len() && 0 <= i < syntax_errors(db, fs[j]).len() implies reports(m, fs[j], #[trigger] syntax_errors(db, fs[j])[i]) by { '
+                   'let r = syntax_errors(db, fs[j])[i]; let k = choose|k: int| 0 <= k < lsyn.len() && (#[trigger] lsyn[k]).location.file == fs[j] && lsyn[k].location.range == r; '
+                   'assert(l2[k] == lsyn[k]); assert(filed(m, l2[k])); let i2 = choose|i2: int| 0 <= i2 < m[fs[j]]@.len() && #[trigger] m[fs[j]]@[i2] == l2[k]; } '
+                   'assert forall|k: int| 0 <= k < index_diags(db).len() implies filed(m, #[trigger] index_diags(db)[k]) by { assert(l2[lsyn.len() + k] == index_diags(db)[k]); assert(filed(m, l2[lsyn.len() + k])); } }'),
+                  (r'let index = db\.index\(\);', 'let ghost lsyn = diagnostic_list@;')],
+     )
